@@ -219,7 +219,8 @@ def gen_unpriv(rng):
         kind = rng.choice(UNPRIV)
         page = rng.randrange(0, 5)
         off = 8 * rng.randrange(2, 28)
-        tests.append({'kind': kind, 'rn_val': G.DATA + 0x100 * page + off, 'rt': rng.randrange(0, 8), 'rn': 8 + rng.randrange(0, 4)})
+        mis = rng.choice([0, 0, 0, 1, 2, 3])       # unaligned word/halfword accesses go byte by byte (SCTLR.U=1, A=0): every byte is a User access
+        tests.append({'kind': kind, 'rn_val': G.DATA + 0x100 * page + off + mis, 'rt': rng.randrange(0, 8), 'rn': 8 + rng.randrange(0, 4)})
     sys = {'sctlr': G.sctlr_value(m=1, a=0, u=1, te=thumb, br=br)}
     sys.update(G.mpu_sys(regs))
     cpsr = G.random_cpsr(rng, cfg, mode=mode, thumb=thumb) | 0x1C0
@@ -360,16 +361,20 @@ def run_unpriv(case):
                 size = 4
             else:
                 size = 4 if kind in ('ldrt', 'strt') else (1 if 'b' in kind[3:] and 'h' not in kind else 2)
-            if addr & (size - 1):
-                addr_al = addr & ~(size - 1)
-                r.set(tst['rn'], (tst['rn_val'] & ~3))
-                addr = ((tst['rn_val'] & ~3) + off) & 0xFFFFFFFF
             words.append(w)
             pre_mode = r.cpsr.value & 0x1F
             b.advance()
             if b.cores[0].dead:
                 return b
             dec, reg = MPU.decide(regions, mval, br, addr, variant == 'plain', write)
+            fault_addr = addr
+            if addr % size:
+                # an unaligned access is performed byte by byte: the first byte the model denies faults
+                for bofs in range(size):
+                    dec, reg = MPU.decide(regions, mval, br, addr + bofs, variant == 'plain', write)
+                    fault_addr = addr + bofs
+                    if dec != 'ok':
+                        break
             aborted = (r.cpsr.value & 0x1F) == 0x17 and pre_mode != 0x17 or (pre_mode == 0x17 and r.pc_store_value() in (0x10, 0xFFFF0010, r.vbar.value + 16))
             ap = (regions[reg][2] >> 8) & 7 if reg is not None else -1
             b.cover.add('unpriv|%s|%s|ap%d|%s|%s' % (kind, variant, ap, 'w' if write else 'r', 'abort' if aborted else 'ok'))
@@ -381,8 +386,8 @@ def run_unpriv(case):
                           '%s %s at %#x in mode %#x (%s access): model says %s (region %s AP %d), abort taken: %s' % (
                               variant, kind, addr, pre_mode, 'User-permission' if variant == 'unpriv' else 'privileged', dec, reg, ap, aborted))
                 return b
-            if aborted and r.dfar != addr:
-                b.violate('unpriv.mpu_model', kind, 'dfar', 'DFAR %#x, expected %#x' % (r.dfar, addr))
+            if aborted and r.dfar != fault_addr:
+                b.violate('unpriv.mpu_model', kind, 'dfar', 'DFAR %#x, expected %#x' % (r.dfar, fault_addr))
                 return b
     return b
 
